@@ -1,2 +1,58 @@
-(* C12 — placeholder while the header-edit proofs are being written. *)
-From DV Require Import Wire.HeaderEdit.
+(* C12 — header edits keep a message valid and touch nothing else.
+   Statements only; proofs in Proofs/EditProofs.v.  The model is the abstract
+   editor on the decoded message; the byte-shuffling C code is tied to it by
+   the correspondence run (bytes compared after every edit). *)
+From DV Require Import Lib.Base Spec.Codec Wire.HeaderEdit Proofs.EditProofs.
+Local Open Scope N_scope.
+
+(* Full statement, incl. the serialisation half that is not yet a theorem:
+   every edit sequence on a spec-valid message re-serialises to bytes the
+   specification decoder accepts as the edited message (when the mandatory
+   fields remain). *)
+Definition C12_full_statement : Prop :=
+  forall m es, let m' := fold_left apply_edit es m in
+    fields_ok [] (s_fields m') = true -> mandatory_ok (s_type m') (s_fields m') = true ->
+    spec_decode_message (spec_encode_message m) <> None ->
+    exists n, spec_decode_message (spec_encode_message m') = Some (m', n).
+
+Theorem C12_readback : forall fs c v, get_field (set_field fs c v) c = Some v.
+Proof. exact get_set_same. Qed.
+Print Assumptions C12_readback.
+
+Theorem C12_delete_readback : forall fs c, get_field (del_field fs c) c = None.
+Proof. exact get_del_same. Qed.
+Print Assumptions C12_delete_readback.
+
+Theorem C12_set_other_fields_unchanged : forall fs c c' v, c' <> c -> get_field (set_field fs c v) c' = get_field fs c'.
+Proof. exact get_set_other. Qed.
+Print Assumptions C12_set_other_fields_unchanged.
+
+(* all other fields keep value, presence and relative order (as a list) *)
+Theorem C12_set_preserves_order_of_others : forall fs c v, del_field (set_field fs c v) c = del_field fs c.
+Proof. exact set_preserves_others. Qed.
+Print Assumptions C12_set_preserves_order_of_others.
+
+Theorem C12_delete_other_fields_unchanged : forall fs c c', c' <> c -> get_field (del_field fs c) c' = get_field fs c'.
+Proof. exact get_del_other. Qed.
+Print Assumptions C12_delete_other_fields_unchanged.
+
+Theorem C12_strip_keeps_known : forall fs c, c <= 10 -> get_field (strip_unknown fs) c = get_field fs c.
+Proof. exact strip_known. Qed.
+Print Assumptions C12_strip_keeps_known.
+
+Theorem C12_strip_removes_unknown : forall fs, forallb (fun f => sf_code f <=? 10) (strip_unknown fs) = true.
+Proof. exact strip_removes. Qed.
+Print Assumptions C12_strip_removes_unknown.
+
+(* flags, serial, type, byte order, signature and body are untouched by any edit sequence *)
+Theorem C12_frame : forall es m,
+  let m' := fold_left apply_edit es m in
+  s_le m' = s_le m /\ s_type m' = s_type m /\ s_flags m' = s_flags m /\ s_serial m' = s_serial m /\ s_sig m' = s_sig m /\ s_body m' = s_body m.
+Proof. exact edits_frame. Qed.
+Print Assumptions C12_frame.
+
+(* non-vacuity *)
+Definition ex_fs : list sfield := [mk_field 1 (VStr 111 [47; 97]); mk_field 77 (VNum 121 5); mk_field 3 (VStr 115 [83])].
+Example ex_set_replaces_in_place : map sf_code (set_field ex_fs 77 (VNum 121 6)) = [1; 77; 3]. Proof. reflexivity. Qed.
+Example ex_set_appends : map sf_code (set_field ex_fs 6 (VStr 115 [97;46;98])) = [1; 77; 3; 6]. Proof. reflexivity. Qed.
+Example ex_strip : map sf_code (strip_unknown ex_fs) = [1; 3]. Proof. reflexivity. Qed.
